@@ -1406,7 +1406,36 @@ class ExecGen(Gen):
         self.end_tok('if')
         self.end()
 
+    def x_select_one_of_many(self):
+        """`select one` / `select any` across a to-MANY association from an instance that has SEVERAL related
+        instances (A 1 has two Bs), with and without a where clause that keeps several; the attribute of the instance
+        that was taken goes into the accumulator, so which instance `one` yields - or that it yields none, or that the
+        statement fails - is visible in the result.  (Zero or one related instance behave alike however `one` is
+        read; only here does the reading of the cardinality keyword matter.)"""
+        r = self.r
+        a = self.name('i')
+        self.kw('select'); self.kw('any'); self.idt(a); self.kw('from'); self.kw('instances'); self.kw('of')
+        self.idt('A'); self.kw('where'); self.pn('LPAREN'); self.kw('selected'); self.pn('DOT'); self.idt('Id')
+        self.pn('DOUBLEEQUAL'); self.num(1); self.pn('RPAREN'); self.end()
+        v = self.name('r')
+        self.kw('select'); self.kw(r.choice(['one', 'one', 'any'])); self.idt(v); self.kw('related'); self.kw('by')
+        self.idt(a); self.pn('ARROW'); self.idt('B'); self.pn('LSQBR'); self.idt('R1'); self.pn('RSQBR')
+        if r.random() < 0.4:
+            self.kw('where'); self.pn('LPAREN'); self.kw('selected'); self.pn('DOT'); self.idt('V')
+            self.pn(r.choice(['GT', 'GE', 'NOTEQUAL'])); self.num(r.choice([0, 1, 2])); self.pn('RPAREN')
+        self.end()
+        self.kw('if'); self.pn('LPAREN'); self.kw('not_empty'); self.idt(v); self.pn('RPAREN')
+        self.idt('acc'); self.pn('EQUAL'); self.idt('acc'); self.pn('TIMES'); self.num(3); self.pn('PLUS')
+        self.idt(v); self.pn('DOT'); self.idt(r.choice(['V', 'Id'])); self.end()
+        self.kw('else')
+        self.idt('acc'); self.pn('EQUAL'); self.idt('acc'); self.pn('PLUS'); self.num(1000); self.end()
+        self.end_tok('if'); self.end()
+        self.insts.append((a, 'A'))
+        self.p.count('x-select-one-of-many')
+
     def x_select_related(self):
+        if self.r.random() < 0.3:
+            return self.x_select_one_of_many()
         if not self.insts:
             return self.x_select_from()
 
